@@ -90,9 +90,9 @@ class Client:
 
         self.__capabilities: dict[str, str] = {}
         self.__respcode_expr = re.compile(rb"(OK|NO|BYE)\s*(.+)?")
-        self.__error_expr = re.compile(rb'(\([\w/-]+\))?\s*(".+")')
         self.__size_expr = re.compile(rb"\{(\d+)\+?\}")
         self.__active_expr = re.compile(rb"ACTIVE", re.IGNORECASE)
+        self.__quoted_expr = re.compile(rb'"((?:[^"\\]|\\.)*)"', re.DOTALL)
 
     def __del__(self):
         if self.sock is not None:
@@ -181,6 +181,9 @@ class Client:
                     raise Error("Connection closed by server")
                 if m.group(1) == b"NO":
                     self.__parse_error(m.group(2))
+                else:
+                    # consume the text of an OK response if it is a literal
+                    self.__parse_status_text(m.group(2), strict=False)
                 raise Response(m.group(1), m.group(2))
         return ret
 
@@ -318,33 +321,56 @@ class Client:
             )
         return True
 
-    def __parse_error(self, text: bytes):
+    def __parse_status_text(
+        self, text: Optional[bytes], strict: bool = True
+    ) -> Tuple[bytes, bytes]:
+        """Parse what follows the status of a response.
+
+        It has the form [(resp-code)] [string] (see RFC 5804, section
+        1.3). If the string is a literal, we grab its content from the
+        server.
+
+        :param text: the text to parse
+        :param strict: raise an error if the text is malformed
+        :return: a 2-uple (response code, human readable text)
+        """
+        code = b""
+        text = (text or b"").strip()
+        if text.startswith(b"("):
+            pos = 1
+            while pos < len(text) and text[pos : pos + 1] != b")":
+                if text[pos : pos + 1] == b'"':
+                    m = self.__quoted_expr.match(text, pos)
+                    pos = m.end() if m is not None else len(text)
+                else:
+                    pos += 1
+            if pos >= len(text):
+                if strict:
+                    raise Error("Bad error message")
+                return (b"", b"")
+            code = text[1:pos]
+            text = text[pos + 1 :].strip()
+        if not text:
+            return (code, b"")
+        m = self.__size_expr.fullmatch(text)
+        if m is not None:
+            return (code, self.__read_block(int(m.group(1)) + 2)[:-2])
+        m = self.__quoted_expr.fullmatch(text)
+        if m is None:
+            if strict:
+                raise Error("Bad error message")
+            return (code, b"")
+        return (code, re.sub(rb"\\(.)", rb"\1", m.group(1), flags=re.DOTALL))
+
+    def __parse_error(self, text: Optional[bytes]):
         """Parse an error received from the server.
-
-        if text corresponds to a size indication, we grab the
-        remaining content from the server.
-
-        Otherwise, we try to match an error of the form \(\w+\)?\s*".+"
 
         On succes, the two public members errcode and errmsg are
         filled with the parsing results.
 
         :param text: the response to parse
         """
-        m = self.__size_expr.match(text)
-        if m is not None:
-            self.errcode = b""
-            self.errmsg = self.__read_block(int(m.group(1)) + 2)
-            return
-
-        m = self.__error_expr.match(text)
-        if m is None:
-            raise Error("Bad error message")
-        if m.group(1) is not None:
-            self.errcode = m.group(1).strip(b"()")
-        else:
-            self.errcode = b""
-        self.errmsg = m.group(2).strip(b'"')
+        self.errcode, self.errmsg = self.__parse_status_text(text)
 
     def _plain_authentication(
         self, login: bytes, password: bytes, authz_id: bytes = b""
